@@ -16,7 +16,7 @@ using namespace c06;
 
 const char* property_id() { return "C06"; }
 unsigned case_timeout_s() { return 300; }
-uint64_t num_cases(bool thorough) { return thorough ? 150000 : 5000; }
+uint64_t num_cases(bool thorough) { return thorough ? 100000 : 5000; }
 void final_report() {}
 
 struct Cfg { uint8_t lg_k; float p; int rf; uint64_t nmax; int parts; double overlap; uint64_t base; double step; bool tuple; };
